@@ -68,6 +68,8 @@ class NumpyProxy:
             val = NumpyProxy(real, name=f"{self._name}.{name}") if name in ("linalg",) else real
         elif isinstance(real, type) or not callable(real):
             val = real
+        elif isinstance(real, _np.ufunc):
+            val = _UfuncProxy(real)
         else:
             val = _generic(real)
         cache[name] = val
@@ -75,6 +77,25 @@ class NumpyProxy:
 
     def __setattr__(self, k, v):
         raise AttributeError("NumpyProxy is read-only")
+
+
+class _UfuncProxy:
+    """callable like the ufunc itself; .reduce/.accumulate/.outer/.at are forwarded the same way"""
+
+    def __init__(self, real):
+        self._real = real
+        self._call = _generic(real)
+        self.__name__ = real.__name__
+        self.__wrapped__ = real
+
+    def __call__(self, *a, **k):
+        return self._call(*a, **k)
+
+    def __getattr__(self, name):
+        v = getattr(self._real, name)
+        if callable(v):
+            return _generic(v)
+        return v
 
 
 def _generic(real):
